@@ -19,12 +19,12 @@ package decoder
 //@ contract decoder.isAttributeDeclarable (body, name, attr) (ok)
 //@   requires body != nil && attr != nil
 //@   ensures [C07] ok == (!(attr.IsComputed && !attr.IsOptional) && !haskey(body.Attributes, name))
-//@   loop 1 invariant [C07] !(attr.IsComputed && !attr.IsOptional) && forallkey(k, body.Attributes, implies(visited(k), k != name))
+//@   loop 1 invariant [C07,claim] !(attr.IsComputed && !attr.IsOptional) && forallkey(k, body.Attributes, implies(visited(k), k != name))
 //@ contract decoder.isBlockDeclarable (body, blockType, bSchema) (ok)
 //@   requires body != nil && bSchema != nil
 //@   ensures [C07] implies(bSchema.MaxItems == 0, ok)
 //@   ensures [C07] implies(bSchema.MaxItems != 0, ok == (itemCount < bSchema.MaxItems))
-//@   loop 1 invariant [C07] bSchema.MaxItems != 0 && itemCount < bSchema.MaxItems
+//@   loop 1 invariant [C07,claim] bSchema.MaxItems != 0 && itemCount < bSchema.MaxItems
 //@   loop 1 iter [C07] itemCount == old(itemCount) + ite(block.Type == blockType, 1, 0)
 
 // ---- byte recovery helpers (C01 totality, C20 clamp rule)
@@ -108,13 +108,13 @@ package decoder
 //@ contract (*decoder.PathDecoder).candidatesFromHooks (d, ctx, attr, aSchema, outerBodyRng, pos) (result)
 //@   requires attr != nil && aSchema != nil
 //@   ensures [C06] uint(len(result)) <= d.maxCandidates
-//@   loop 1 invariant [C06] count == len(candidates) && uint(count) <= d.maxCandidates && fresh(candidates)
-//@   loop 2 invariant [C06] count == len(candidates) && uint(count) <= d.maxCandidates && fresh(candidates)
+//@   loop 1 invariant [C06,claim] count == len(candidates) && uint(count) <= d.maxCandidates && fresh(candidates)
+//@   loop 2 invariant [C06,claim] count == len(candidates) && uint(count) <= d.maxCandidates && fresh(candidates)
 //@ contract (*decoder.PathDecoder).attrValueCompletionAtPos (d, ctx, attr, schema, outerBodyRng, pos) (result, err)
 //@   requires attr != nil && schema != nil
 //@   ensures [C06] uint(len(result.List)) <= d.maxCandidates
 //@   ensures [C06] implies(result.IsComplete, len(schema.CompletionHooks) == 0)
-//@   loop 1 invariant [C06] count == len(candidates.List) && uint(count) <= d.maxCandidates
+//@   loop 1 invariant [C06,claim] count == len(candidates.List) && uint(count) <= d.maxCandidates
 //@   ghost asked after invoke:CompletionAtPos#1 : true
 //@   ghost exprCands after invoke:CompletionAtPos#1 : callresult
 //@   ghost hookCount after invoke:CompletionAtPos#1 : count
@@ -127,8 +127,8 @@ package decoder
 //@   requires body != nil && schema != nil
 //@   requires d.maxCandidates >= 2
 //@   ensures [C06,name:limit] uint(len(result.List)) <= d.maxCandidates
-//@   loop 1 invariant [C06] len(candidates.List) == count && count >= 0 && uint(count) <= d.maxCandidates
-//@   loop 2 invariant [C06] len(candidates.List) == count && count >= 0 && uint(count) <= d.maxCandidates
+//@   loop 1 invariant [C06,claim] len(candidates.List) == count && count >= 0 && uint(count) <= d.maxCandidates
+//@   loop 2 invariant [C06,claim] len(candidates.List) == count && count >= 0 && uint(count) <= d.maxCandidates
 //@   loop 1 iter [C07] (len(candidates.List) == old(len(candidates.List)) + 1) == (isAttributeDeclarable(body, name, schema.Attributes[name]) && (len(prefix) == 0 || strings.HasPrefix(name, string(prefix))))
 //@   loop 1 iter [C07] len(candidates.List) == old(len(candidates.List)) || len(candidates.List) == old(len(candidates.List)) + 1
 //@   loop 2 iter [C07] (len(candidates.List) == old(len(candidates.List)) + 1) == (!haskey(schema.Attributes, bType) && isBlockDeclarable(body, bType, schema.Blocks[bType]) && (len(prefix) == 0 || strings.HasPrefix(bType, string(prefix))))
